@@ -115,6 +115,42 @@ def jComments (c : Comments) : Json :=
         ("readable", jOpt jNats c.readable),
         ("algorithmIsCorrelation", jOpt jBool c.algorithmIsCorrelation)]
 
+/-- `PyVal` as JSON: `{"t": tag, "v": payload}` -/
+partial def parsePyVal (j : Json) : R PyVal := do
+  let t ← asStr (← field j "t")
+  let v := fieldD j "v" Json.null
+  match t with
+  | "none" => return .none
+  | "bool" => return .bool (← asBool v)
+  | "npBool" => return .npBool (← asBool v)
+  | "int" => return .int (← asInt v)
+  | "npInt64" => return .npInt64 (← asInt v)
+  | "num" => return .num (← parseNum v)
+  | "str" => return .str (← asNat v)
+  | "other" => return .other (← asNat v)
+  | "list" => return .list (← asList parsePyVal v)
+  | "tuple" => return .tuple (← asList parsePyVal v)
+  | "intSet" => return .intSet (← intList v)
+  | "ndarray" => return .ndarray (← asList parsePyVal v)
+  | "dict" => return .dict (← asList (asPair parsePyVal parsePyVal) v)
+  | _ => .error s!"unknown PyVal tag {t}"
+
+partial def jPyVal : PyVal → Json
+  | .none => jObj [("t", jStr "none")]
+  | .bool b => jObj [("t", jStr "bool"), ("v", jBool b)]
+  | .npBool b => jObj [("t", jStr "npBool"), ("v", jBool b)]
+  | .int i => jObj [("t", jStr "int"), ("v", jInt i)]
+  | .npInt64 i => jObj [("t", jStr "npInt64"), ("v", jInt i)]
+  | .num x => jObj [("t", jStr "num"), ("v", jNum x)]
+  | .str s => jObj [("t", jStr "str"), ("v", jNat s)]
+  | .other k => jObj [("t", jStr "other"), ("v", jNat k)]
+  | .list xs => jObj [("t", jStr "list"), ("v", Json.arr (xs.map jPyVal).toArray)]
+  | .tuple xs => jObj [("t", jStr "tuple"), ("v", Json.arr (xs.map jPyVal).toArray)]
+  | .intSet xs => jObj [("t", jStr "intSet"), ("v", jInts xs)]
+  | .ndarray xs => jObj [("t", jStr "ndarray"), ("v", Json.arr (xs.map jPyVal).toArray)]
+  | .dict kvs => jObj [("t", jStr "dict"),
+      ("v", Json.arr (kvs.map (fun (k, v) => Json.arr #[jPyVal k, jPyVal v])).toArray)]
+
 def handle : Handler := fun op inp =>
   match op with
   | "output.h5" => some do
@@ -147,6 +183,10 @@ def handle : Handler := fun op inp =>
       let dl ← asOption asNat (fieldD inp "dropLevel" Json.null)
       let fl ← asBool (fieldD inp "flatten" (Json.bool false))
       return jTree (embeddedTree t dl fl)
+  | "output.cleanForJson" => some do
+      let v ← parsePyVal (← field inp "value")
+      return jObj [("clean", jPyVal (clean v)), ("plain", jBool (plain (clean v))),
+                   ("noOther", jBool (noOther v))]
   | "output.reorder" => some do
       let results ← asList parseRecord (← field inp "results")
       let order ← natList (← field inp "order")
